@@ -3,9 +3,16 @@
 // Contracts for the gowp verifier (/verif): comment-only file, compiled only with -tags verif.
 package pac
 
+// C19 (attributes reported faithfully): every extra SID of the validation info is in the list handed to the
+// application. (The "<domain SID>-<RID>" members are built by fmt.Sprintf, which is outside the subset.)
 //@ func (*pac.KerbValidationInfo).GetGroupMembershipSIDs(k) (r)
 //@   pure
 //@   trusted_frame builds a fresh list
+//@   ensures forall j int :: 0 <= j && j < len(k.ExtraSIDs) ==> exists i int :: 0 <= i && i < len(r) && r[i] == sidstr(k.ExtraSIDs[j].SID)
+//@   loop 2 invariant -1 <= rangeindex && rangeindex < len(k.ExtraSIDs)
+//@   loop 2 invariant forall j int :: 0 <= j && j <= rangeindex ==> exists i int :: 0 <= i && i < len(g) && g[i] == sidstr(k.ExtraSIDs[j].SID)
+//@   loop 3 invariant !exists
+//@   loop 4 invariant forall j int :: 0 <= j && j < len(k.ExtraSIDs) ==> exists i int :: 0 <= i && i < len(g) && g[i] == sidstr(k.ExtraSIDs[j].SID)
 
 // ---- property C19: a PAC is accepted only with the mandatory buffers and a valid server signature.
 
